@@ -3,20 +3,16 @@ import MythVerif.Proofs.WsQueueTsoTac
 namespace MythVerif.WsqTso
 open MythVerif.Wsq
 
-set_option maxHeartbeats 4000000 in
 theorem f_O_base_cl2 (s : St) (v0) (rest : List Sto) : Inv s → s.opc = .cl2 →
     s.bufO = .base v0 :: rest → Inv (applySto { s with bufO := rest } (.base v0)) := by
   intro h hpc hb
   simp only [applySto]
-  cases h; simp only [hpc, ownerLocked, carry, resetting, ownerFlight] at *
-  tso_finish3
+  tso_fastO h hpc [cl2]
 
-set_option maxHeartbeats 4000000 in
 theorem f_O_base_cl3 (s : St) (v0) (rest : List Sto) : Inv s → s.opc = .cl3 →
     s.bufO = .base v0 :: rest → Inv (applySto { s with bufO := rest } (.base v0)) := by
   intro h hpc hb
   simp only [applySto]
-  cases h; simp only [hpc, ownerLocked, carry, resetting, ownerFlight] at *
-  tso_finish3
+  tso_fastO h hpc [cl3]
 
 end MythVerif.WsqTso
